@@ -4,7 +4,9 @@ import (
 	"bytes"
 	"context"
 	"fmt"
+	"github.com/PowerDNS/lightningstream/lmdbenv/dbiflags"
 	"sort"
+	"strings"
 
 	"github.com/PowerDNS/lightningstream/lmdbenv/header"
 	"github.com/PowerDNS/lightningstream/snapshot"
@@ -194,6 +196,24 @@ func areaDupsort(r *Rng, n int, dir string) (*AreaOut, error) {
 	if err := dupCycleOracle(r, n/6+5, out); err != nil {
 		return nil, err
 	}
+	// dbi_options.override_create_flags is written as TEXT in the configuration ("MDB_DUPSORT|MDB_DUPFIXED", also
+	// with ',', '+' or ' ' between the names): every set of flags survives the round trip through its text form —
+	// a list that loses MDB_DUPSORT creates the duplicate-keys DBI as a plain DBI, silently
+	for bits := 0; bits < 64; bits++ {
+		f := dbiflags.Flags(bits << 1)
+		txt, _ := f.MarshalText()
+		for _, sep := range []string{"|", ",", "+", " ", " | "} {
+			out.OracleN++
+			in := strings.ReplaceAll(string(txt), "|", sep)
+			var g dbiflags.Flags
+			err := g.UnmarshalText([]byte(in))
+			if err != nil || g != f {
+				out.Oracle = append(out.Oracle, OracleFailure{"C20", "override-flags-text-round-trip", fmt.Sprintf("override_create_flags %q parses to %s (error %v), expected %s", in, g, err, f), map[string]any{"text": in}})
+				break
+			}
+		}
+	}
+	hist(out.Hist, "override-flags-text-round-trip")
 	out.Cases = len(cases)
 	out.Distinct = len(seen)
 	for i := 0; i < 3 && i < len(cases); i++ {
